@@ -25,8 +25,7 @@ ERR = {errno.EADDRINUSE: "InUse", errno.EACCES: "Access", errno.EFAULT: "Fault",
        errno.EISCONN: "IsConn", errno.EALREADY: "Already", errno.EPIPE: "Pipe"}
 KIND = {"ldl": LDL, "dlc": DLC, "raw": RAW}
 RECVBUF, BACKLOG = 2, 1
-BLANK = dict(op="", c="A", s=0, n="", a=0, dst=0, m=0, kind="", res="OK", val=0, reach=0, got=0, cached=False,
-             waive=[])
+BLANK = dict(op="", c="A", s=0, n="", a=0, dst=0, m=0, kind="", res="OK", val=0, reach=0, got=0, cached=False)
 
 
 def abstract_error(e):
@@ -47,6 +46,7 @@ class World(object):
         self.kinds = {"A": [], "B": []}
         self.pending = {}        # (side, id) -> Call of a blocked connect()
         self.ev = []
+        self.cur = None
 
     # ---- projection ---------------------------------------------------------------------------
     def state(self, c, i):
@@ -95,7 +95,6 @@ class World(object):
         self.reap()
         rec = dict(BLANK)
         rec.update(kw)
-        rec["waive"] = []
         rec["post"] = dict(A=self.proj_side("A"), B=self.proj_side("B"))
         self.ev.append(rec)
         return rec
@@ -137,6 +136,14 @@ class World(object):
         self.log(op="Socket", c=c, kind=kind)
         return len(self.socks[c])
 
+    def blocked(self, why):
+        """A call did not come back where the spec says it does: logged as the last event of the history."""
+        rec = dict(BLANK)
+        rec.update(self.cur or {})
+        rec["res"] = "Blocked"
+        rec["post"] = dict(A=self.proj_side("A"), B=self.proj_side("B"))
+        self.ev.append(rec)
+
     def _call(self, fn, *args):
         try:
             fn(*args)
@@ -145,22 +152,27 @@ class World(object):
             return abstract_error(e)
 
     def bind_none(self, c, i):
+        self.cur = dict(op="BindNone", c=c, s=i)
         res = self._call(self.socks[c][i - 1].bind)
         return self.log(op="BindNone", c=c, s=i, kind=self.kinds[c][i - 1], res=res)
 
     def bind_addr(self, c, i, a):
+        self.cur = dict(op="BindAddr", c=c, s=i, a=a)
         res = self._call(self.socks[c][i - 1].bind, a)
         return self.log(op="BindAddr", c=c, s=i, a=a, kind=self.kinds[c][i - 1], res=res)
 
     def bind_name(self, c, i, n):
+        self.cur = dict(op="BindName", c=c, s=i, n=n)
         res = self._call(self.socks[c][i - 1].bind, REAL[n])
         return self.log(op="BindName", c=c, s=i, n=n, kind=self.kinds[c][i - 1], res=res)
 
     def listen(self, c, i):
+        self.cur = dict(op="Listen", c=c, s=i)
         res = self._call(self.socks[c][i - 1].listen, BACKLOG)
         return self.log(op="Listen", c=c, s=i, kind="dlc", res=res)
 
     def connect(self, c, i, a=None, n=None):
+        self.cur = dict(op="ConnectAddr" if n is None else "ConnectName", c=c, s=i, a=a or 0, n=n or "")
         s, kind, p = self.socks[c][i - 1], self.kinds[c][i - 1], self.peer(c)
         dest = a if n is None else REAL[n]
         op = "ConnectAddr" if n is None else "ConnectName"
@@ -191,12 +203,14 @@ class World(object):
         return self.log(op=op, c=c, s=i, a=a or 0, n=n or "", kind=kind, res=res, reach=reach)
 
     def accept(self, c, i):
+        self.cur = dict(op="Accept", c=c, s=i)
         acc = self.socks[c][i - 1].accept()
         self.socks[c].append(acc)
         self.kinds[c].append("dlc")
         return self.log(op="Accept", c=c, s=i, kind="dlc", res="OK", got=len(self.socks[c]))
 
     def sendto(self, c, i, dst, m):
+        self.cur = dict(op="SendTo", c=c, s=i, dst=dst, m=m)
         p = self.peer(c)
         before = self.qlens(p)
         try:
@@ -212,6 +226,7 @@ class World(object):
         return self.log(op="SendTo", c=c, s=i, dst=dst, m=m, kind="ldl", res=res, got=got)
 
     def recvfrom(self, c, i):
+        self.cur = dict(op="RecvFrom", c=c, s=i)
         m = a = 0
         try:
             data, ssap = self.socks[c][i - 1].recvfrom()
@@ -223,6 +238,7 @@ class World(object):
         return self.log(op="RecvFrom", c=c, s=i, m=m, a=a, kind=self.kinds[c][i - 1], res=res)
 
     def resolve(self, c, n):
+        self.cur = dict(op="Resolve", c=c, n=n)
         L = self.llc[c]
         cached = REAL[n] in L.sap[1].snl
         call = Call(L.resolve, REAL[n])
@@ -235,6 +251,7 @@ class World(object):
         return self.log(op="Resolve", c=c, n=n, res="OK", val=call.value, cached=cached)
 
     def close(self, c, i):
+        self.cur = dict(op="Close", c=c, s=i)
         s = self.socks[c][i - 1]
         if self.state(c, i) == "conn":
             call = Call(s.close)
@@ -414,6 +431,8 @@ def history(seed, klass):
             random_ops(W, rnd, 10)
         else:
             random_ops(W, rnd, rnd.randint(40, 110), names=NAMESEQ[1:rnd.choice([3, 5, 8])])
+    except HarnessError as e:
+        W.blocked(str(e))
     finally:
         W.finish()
     return dict(id="%s-%d" % (klass, seed), const=dict(), ev=W.ev)
